@@ -101,6 +101,14 @@ class C03(core.Prop):
         pipes = [x for x in out if x['mode'] == 'pipe']
         for i, x in enumerate([y for y in pipes if y['ll'] == 1 and len(y['case']['cut']) == 1][::(3 if tier == 'quick' else 2)]):
             out.append(dict(x, entry=('dicts', 'graph_rev')[(i // 2) % 2]))
+        # ... and base graphs with an edge of order 2 (two cuts between the same two fragments) handed over as a graph
+        def multi(c):
+            where = {a: bi for bi, b in enumerate(c['blocks']) for a in b}
+            keys = [tuple(sorted((where[i], where[j]))) for i, j in c['cut']]
+            return len(keys) == 2 and keys[0] == keys[1]
+        dbl = [y for y in pipes if y['ll'] == 1 and multi(y['case'])]
+        for i, x in enumerate(dbl[::(6 if tier == 'quick' else 4)]):
+            out.append(dict(x, entry=('graph_rev', 'graph_rot')[(i // 2) % 2]))
         return out
 
     # ------------------------------------------------------------------
@@ -280,6 +288,9 @@ class C03(core.Prop):
             if not arom:
                 dig = lambda s: SymStr.lift(s).to_int() if not isinstance(s, str) else int(s)
                 cl.append(('bond_order_annotated', bor(order == dig(x[-1]), (False if legacy else order == dig(y[-1])))))
+        for a, b, o in meta['edges']:
+            # the base graph comes back with the orders it was written with (the oracle keeps its own copy)
+            cl.append(('base_edge_order_as_written', o == cnt.get(tuple(sorted((border[a], border[b]))))))
         for e, o in base.items():
             cl.append(('count_not_above_edge_order', per_edge.get(e, 0) <= o))
             # in these cases every unit of a base edge's order stands for one cut bond with its own compatible descriptor
@@ -308,5 +319,5 @@ class C03(core.Prop):
 PROP = C03()
 
 # shape families added after the first complete pass (DESIGN 8.6-8.11); appended to the bounds written into the evidence
-BOUNDS_ADDED = '; plus: unit drive with bead fragments (all_atom=False), a single-hydrogen fragment mid-chain, label lengths up to 4, pipeline cases through from_fragment_dicts / from_graph with independent partner labels under legacy=False'
+BOUNDS_ADDED = '; plus: unit drive with bead fragments (all_atom=False), a single-hydrogen fragment mid-chain, label lengths up to 4, pipeline cases through from_fragment_dicts / from_graph with independent partner labels under legacy=False, base edges of order 2 handed over through from_graph (the oracle keeps its own copy of the written orders)'
 PROP.BOUNDS = {k: v + BOUNDS_ADDED for k, v in PROP.BOUNDS.items()}
